@@ -1060,3 +1060,5 @@ O(id="C19.send_frame_compressed", props=["C19", "C10", "C12", "C06"], entry="har
   assumes=["allocations succeed"], bounds="message <= 4 bytes", **dict(_ws, unwind=10, stubs=_ws["stubs"] + ["deflate: contract stub (consumes <= avail_in, produces <= avail_out, writes what fits, any return code)"]))
 
 # (C19.fragmented_message - text_frame_received_comp over two fragments with the inflate stub - ran out of memory at 24 GB even for fragments of <= 2 bytes: not registered, see DESIGN.md 8.5; harness_fragmented is kept in harness/c19_compress.c)
+_note_add("C19", "compress_buffers / send_frame_compressed: the deflate driver with a deflate contract stub (writes what fits into the 2*length output buffer, any return code): the result is a length inside the buffer or a reported failure, and send_frame then writes exactly one complete frame - compressed, or the original payload uncompressed when no compressed form is available.",
+          "NOT APPLICABLE PART: the lossless round trip and corrupt-stream rejection inside zlib's inflate/deflate (input-length dependent compression loops: not encoded). Offer parsing on symbolic bytes (no verdict in 25 min). Fragmented compressed messages end to end (out of memory, DESIGN.md 8.5). Leaks of the inflate driver's buffers when a stream is rejected (read, not claimed). In the daemon the extension is never enabled (compression level 0).")
